@@ -3,6 +3,7 @@ package routing
 
 import (
 	"fmt"
+	"math/big"
 	"net/netip"
 	"strings"
 	"testing"
@@ -120,9 +121,64 @@ func gen(r *hlib.Rand, n int, tier, profile string, emit func(string, ...any)) {
 			if r.Chance(1, 30) {
 				ws = nil
 			}
-			emit("bal %d %d %s %s %s", randPort(r), randPort(r), randRest(r), randRest(r), ints(ws))
+			lp, rp := randPort(r), randPort(r)
+			if len(ws) > 0 && r.Chance(1, 2) {
+				// aim the flow hash at a share boundary: bound, bound+1 or bound-1 of a random gateway
+				bs := idealBounds(ws)
+				target := bs[r.Intn(len(bs))] + int64(hlib.Pick(r, 0, 0, 1, -1))
+				if target >= 0 && target < 1<<31 {
+					if a, b, ok := portsForHash(uint32(target) | uint32(r.Intn(2))<<31); ok {
+						lp, rp = a, b
+					}
+				}
+			}
+			emit("bal %d %d %s %s %s", lp, rp, randRest(r), randRest(r), ints(ws))
 		}
 	}
+}
+
+// idealBounds: nearest-integer hash-threshold bounds in exact arithmetic (math/big).
+func idealBounds(ws []int) []int64 {
+	total := new(big.Int)
+	for _, w := range ws {
+		total.Add(total, big.NewInt(int64(w)))
+	}
+	out := make([]int64, len(ws))
+	if total.Sign() <= 0 {
+		return out
+	}
+	run := new(big.Int)
+	for i, w := range ws {
+		run.Add(run, big.NewInt(int64(w)))
+		x := new(big.Int).Lsh(run, 32) // 2 * run * 2^31
+		x.Add(x, total)
+		x.Div(x, new(big.Int).Lsh(total, 1))
+		out[i] = x.Int64() - 1
+	}
+	return out
+}
+
+func inv32(a uint32) uint32 { // multiplicative inverse of an odd a modulo 2^32 (Newton)
+	x := a
+	for i := 0; i < 5; i++ {
+		x *= 2 - a*x
+	}
+	return x
+}
+
+// portsForHash inverts the published hash-prospector permutation [16 21f0aaad 15 d35a2d97 15] to find the
+// port pair whose 32-bit pre-mask hash is y, and confirms the result against the real hashPacket (so a
+// changed hash function only makes this targeted generator fall back to random ports).
+func portsForHash(y uint32) (int, int, bool) {
+	x := y
+	x ^= x>>15 ^ x>>30
+	x *= inv32(0xd35a2d97)
+	x ^= x>>15 ^ x>>30
+	x *= inv32(0x21f0aaad)
+	x ^= x >> 16
+	lp, rp := int(x>>16), int(x&0xffff)
+	got := routing.VerifHashPacket(&firewall.Packet{LocalPort: uint16(lp), RemotePort: uint16(rp)})
+	return lp, rp, got == int(y&0x7fffffff)
 }
 
 func randRest(r *hlib.Rand) string {
